@@ -63,3 +63,19 @@ def matmul3(A, B):
 
 
 K.register_spec(hkl=hkl, dspec=dspec, ihkl=ihkl, det3=det3, adj3=adj3, inv3=inv3, matmul3=matmul3, Mat=Mat)
+
+
+def count_lemmas():
+    """induction base and steps of the facts that verif.contract instantiates for every count term (`count`, `countp`):
+    with c(n) = 0 for n <= lo and c(n+1) = c(n) + [P(n)] for n >= lo:   0 <= c(n) <= n - lo   and   n <= m -> 0 <= c(m) - c(n) <= m - n."""
+    import z3
+    c = z3.Function("c!lemma", z3.IntSort(), z3.IntSort())
+    P = z3.Function("P!lemma", z3.IntSort(), z3.BoolSort())
+    n, m, lo = z3.Ints("n!l m!l lo!l")
+    step = lambda x: c(x + 1) == c(x) + z3.If(P(x), 1, 0)
+    return [("range.base", [c(lo) == 0], z3.And(c(lo) >= 0, c(lo) <= lo - lo)),
+            ("range.step", [n >= lo, c(n) >= 0, c(n) <= n - lo, step(n)], z3.And(c(n + 1) >= 0, c(n + 1) <= n + 1 - lo)),
+            ("monotone.base", [], z3.And(c(n) - c(n) >= 0, c(n) - c(n) <= n - n)),
+            ("monotone.step", [n <= m, m >= lo, c(m) - c(n) >= 0, c(m) - c(n) <= m - n, step(m)],
+             z3.And(c(m + 1) - c(n) >= 0, c(m + 1) - c(n) <= m + 1 - n)),
+            ("below_lo", [n <= lo, z3.ForAll([m], z3.Implies(m <= lo, c(m) == 0))], c(n) == 0)]
